@@ -149,3 +149,16 @@ Theorem C13_slots_only_shrink : forall terms ops hs s hs' s' a a' a'',
   List.incl (values (am a'')) (values (am a')).
 Proof. exact slots_only_shrink_run. Qed.
 Print Assumptions C13_slots_only_shrink.
+
+(* the progress measure moves lexicographically in its documented direction (classes up; then live classes down;
+   then slot total down; then symmetries up) along every operation (EGraph/ProgressFacts.v) *)
+From SE Require Import EGraph.ProgressFacts.
+Theorem C13_progress_measure_monotone : forall s s' p p', pext s s' ->
+  progress s = Ok p -> progress s' = Ok p' -> ple p p'.
+Proof. exact progress_monotone. Qed.
+Print Assumptions C13_progress_measure_monotone.
+
+Theorem C13_operations_are_pext : forall l r s b s', inv3 s -> covers s l -> covers s r ->
+  eg_union l r s = Ok (b, s') -> pext s s' /\ inv3 s' /\ ext s s'.
+Proof. exact pext_eg_union. Qed.
+Print Assumptions C13_operations_are_pext.
